@@ -651,12 +651,16 @@ Init ==
   /\ facts = AllFacts(St)
 
 P(S) == IF SimK = 0 \/ S = {} THEN S ELSE RandomSubset(PMin(SimK, Cardinality(S)), S)
+\* value descriptors: in simulation, nodes the user still holds after they were removed from a tree (detached roots other
+\* than the initial ones) are offered in addition, so that remove-then-reinsert histories are not left to chance
+Reusable == {m \in Nodes : kind[m] # "free" /\ parent[m] = NULL /\ m > Len(InitKinds)}
+PVD == P(VD) \cup P(Reusable)
 \* family / kind guards come before the parameter quantifiers so that TLC does not enumerate
 \* argument tuples for actions that cannot fire at n
 Has(f) == f \in Acts
 NextDict(n) ==
   /\ IsDictLike(St, n)
-  /\ \/ Has("dict") /\ \E k \in P(Keys), vd \in P(VD \cup {MISSING}) : DictSet(n, k, vd)
+  /\ \/ Has("dict") /\ \E k \in P(Keys), vd \in (P(VD \cup {MISSING}) \cup P(Reusable)) : DictSet(n, k, vd)
      \/ Has("dict") /\ IsPlainDict(St, n) /\
           (\/ \E k \in P(Keys) : DictDel(n, k) \/ \E d \in P(BOOLEAN) : DictPop(n, k, d)
            \/ DictPopItem(n) \/ DictClear(n)
@@ -666,9 +670,9 @@ NextDict(n) ==
 NextList(n) ==
   /\ kind[n] = "list"
   /\ \/ Has("list") /\
-          (\/ \E i \in P(Idx), vd \in P(VD) : ListSet(n, i, vd) \/ ListInsert(n, i, vd)
+          (\/ \E i \in P(Idx), vd \in PVD : ListSet(n, i, vd) \/ ListInsert(n, i, vd)
            \/ \E i \in P(Idx) : ListDel(n, i) \/ ListPop(n, i)
-           \/ \E vd \in P(VD) : ListAppend(n, vd)
+           \/ \E vd \in PVD : ListAppend(n, vd)
            \/ \E vds \in P((SeqsUpTo(VD, 2)) \ {<<>>}) : ListExtend(n, vds, FALSE)
            \/ \E v \in P(Leafs) : ListRemove(n, v)
            \/ ListClear(n))
@@ -700,15 +704,17 @@ LevelBound == TLCGet("level") <= MaxLevel
 InitStates == JsonDeserialize(IOEnv.INIT_FILE)
 InitFrom ==
   \E i \in 1..Len(InitStates) :
-    LET z == InitStates[i] IN
-    /\ kind = [n \in Nodes |-> z.kind[n]]
-    /\ ditems = [n \in Nodes |-> z.ditems[n]]
-    /\ litems = [n \in Nodes |-> z.litems[n]]
-    /\ parent = [n \in Nodes |-> z.parent[n]]
-    /\ pkey = [n \in Nodes |-> z.pkey[n]]
-    /\ sealed = [n \in Nodes |-> z.sealed[n]]
-    /\ accw = [n \in Nodes |-> z.accw[n]]
-    /\ subs = [n \in Nodes |-> z.subs[n]]
+    LET z == InitStates[i]
+        m == Len(z.kind)        \* the exported states may come from a configuration with fewer node ids
+    IN
+    /\ kind = [n \in Nodes |-> IF n <= m THEN z.kind[n] ELSE "free"]
+    /\ ditems = [n \in Nodes |-> IF n <= m THEN z.ditems[n] ELSE <<>>]
+    /\ litems = [n \in Nodes |-> IF n <= m THEN z.litems[n] ELSE <<>>]
+    /\ parent = [n \in Nodes |-> IF n <= m THEN z.parent[n] ELSE NULL]
+    /\ pkey = [n \in Nodes |-> IF n <= m THEN z.pkey[n] ELSE NULL]
+    /\ sealed = [n \in Nodes |-> IF n <= m THEN z.sealed[n] ELSE FALSE]
+    /\ accw = [n \in Nodes |-> IF n <= m THEN z.accw[n] ELSE TRUE]
+    /\ subs = [n \in Nodes |-> IF n <= m THEN z.subs[n] ELSE FALSE]
     /\ sstk = z.sstk /\ astk = z.astk /\ nstk = z.nstk
     /\ out = Ok(0) /\ evts = {} /\ act = <<"From", i>>
     /\ memo = [n \in Nodes |-> NoFacts]
